@@ -43,6 +43,9 @@ func init() {
 					}
 					c.Results = keep
 				}},
+			{ID: "C04.h", Title: "TILE-STAGING", Template: "T1+T2+T6", MinInst: 6,
+				Rule: "each sequenced entry is appended to the data tile exactly once per leaf before the index advances; a full data/names tile is staged only on the edge n % TileWidth == 0 (after the increment), for the tile of leaf n-1, with the accumulated bytes, which are then reset; the trailing partial tile is staged only when the round added leaves and n % TileWidth != 0; the accumulator starts from the in-memory partial edge tile",
+				Run:  c04h},
 			{ID: "C04.g", Title: "CONSTANTS", Template: "T5", MinInst: 1,
 				Rule: "TileHeight = 8 = torchwood.TileHeight, TileWidth = 1 << TileHeight", Run: c04g},
 		},
@@ -613,4 +616,272 @@ func c04g(c *Ctx) {
 	} else {
 		c.Bad("tile constants", "tile.go", fmt.Sprintf("TileHeight=%d TileWidth=%d torchwood.TileHeight=%d: the Static CT layout requires height 8, width 256, and agreement with the tile library", h, w, th))
 	}
+}
+
+func c04h(c *Ctx) {
+	for _, f := range sequencers(c.P) {
+		c.touch(f)
+		info := f.Info()
+		g := f.Graph()
+		recv := f.recvObj()
+		// the running index
+		var nObj types.Object
+		for _, h := range f.Calls(specHashTreeHead) {
+			nObj = objOf(info, argByName(info, h.Call, "n"))
+		}
+		ale := f.Calls(Callee{pkgCtlog, "PendingLogEntry", "asLogEntry"})
+		app := f.Calls(Callee{pkgRoot, "", "AppendTileLeaf"})
+		if nObj == nil || len(ale) != 1 || len(app) != 1 {
+			c.Unk(f.Name+" data tile", fmt.Sprintf("anchors: index=%v asLogEntry=%d AppendTileLeaf=%d", nObj != nil, len(ale), len(app)))
+			continue
+		}
+		var inc []Site
+		for _, d := range f.Defs(nObj) {
+			if x, ok := d.Node.(*ast.IncDecStmt); ok {
+				inc = append(inc, f.Find(func(n ast.Node) bool { return n == ast.Node(x) })...)
+			}
+		}
+		if len(inc) != 1 {
+			c.Unk(f.Name+" data tile", "running index increment not found")
+			continue
+		}
+		// 1. accumulate
+		a := app[0]
+		var accObj, entryObj types.Object
+		if as, ok := a.Node.(*ast.AssignStmt); ok && len(as.Lhs) == 1 {
+			accObj = objOf(info, as.Lhs[0])
+		}
+		if as, ok := ale[0].Node.(*ast.AssignStmt); ok && len(as.Lhs) == 1 {
+			entryObj = objOf(info, as.Lhs[0])
+		}
+		inst := f.Name + " entries accumulated"
+		switch {
+		case accObj == nil || objOf(info, a.Call.Args[0]) != accObj:
+			c.Bad(inst, a.Pos(), "the data tile is not extended in place (dataTile = AppendTileLeaf(dataTile, entry))")
+		case entryObj == nil || objOf(info, a.Call.Args[1]) != entryObj:
+			c.Bad(inst, a.Pos(), "the entry appended to the data tile is not the entry built for this leaf (the one that is hashed into the tree)")
+		default:
+			stopA := func(p Point, _ ast.Node) bool { return p == a.P }
+			if pt, _ := g.Reach(ale[0].After(), Cut{Stop: stopA}, atSite(inc[0])); pt != nil {
+				c.Bad(inst, a.Pos(), "the index can advance for a leaf that was not appended to the data tile")
+			} else if pt, _ := g.Reach(a.After(), Cut{Stop: func(p Point, _ ast.Node) bool { return p == inc[0].P }}, atSite(a)); pt != nil {
+				c.Bad(inst, a.Pos(), "a leaf can be appended to the data tile twice")
+			} else {
+				c.add(Result{Instance: inst, Verdict: Discharged, Evals: 2, Sites: []string{a.Pos()}, Detail: "dataTile = AppendTileLeaf(dataTile, entry) exactly once per leaf, before n++", Witnesses: []Witness{f.WitDelete(a.Node)}})
+			}
+		}
+		// the names accumulator: the other []byte variable reset to nil together with the data accumulator
+		isMod := func(e ast.Expr) bool {
+			be, ok := ast.Unparen(e).(*ast.BinaryExpr)
+			if !ok || be.Op != token.REM || objOf(info, be.X) != nObj {
+				return false
+			}
+			v, isC := constInt(info, be.Y)
+			return isC && v == 256
+		}
+		isZero := func(e ast.Expr) bool { v, ok := constInt(info, e); return ok && v == 0 }
+		full := g.EdgesImplying(func(at Atom) bool { rel, ok := cmpRel(at, isMod, isZero); return ok && rel == relEQ })
+		notFull := g.EdgesImplying(func(at Atom) bool { rel, ok := cmpRel(at, isMod, isZero); return ok && rel&relEQ == 0 })
+		isTreeN := func(e ast.Expr) bool {
+			return f.IsFieldPathOf(e, func(o types.Object) bool { return o == recv }, "tree", "N")
+		}
+		isN := func(e ast.Expr) bool { return objOf(info, e) == nObj }
+		grew := g.EdgesImplying(func(at Atom) bool { rel, ok := cmpRel(at, isN, isTreeN); return ok && rel&relEQ == 0 })
+		// the leaf loop
+		var loop *ast.RangeStmt
+		ast.Inspect(f.Body, func(n ast.Node) bool {
+			if rs, ok := n.(*ast.RangeStmt); ok {
+				if _, isPL := fieldSel(info, rs.X, pkgCtlog, "pool", "pendingLeaves"); isPL {
+					loop = rs
+				}
+			}
+			return true
+		})
+		if loop == nil {
+			c.Unk(f.Name+" tile staging", "leaf loop not found")
+			continue
+		}
+		inLoop := func(n ast.Node) bool { return loop.Body.Pos() <= n.Pos() && n.End() <= loop.Body.End() }
+		// staged data / names tiles
+		type staged struct {
+			site  Site
+			level string
+			data  ast.Expr
+			in    bool
+		}
+		var st []staged
+		for _, s := range f.Find(func(n ast.Node) bool {
+			cl, ok := n.(*ast.CompositeLit)
+			if !ok {
+				return false
+			}
+			tv, ok := info.Types[cl]
+			return ok && namedIs(tv.Type, pkgCtlog, "uploadAction")
+		}) {
+			cl := s.X.(*ast.CompositeLit)
+			key := compositeField(info, cl, "key", 0)
+			call, ok := f.IsCallResult(key, -1, Callee{pkgRoot, "", "TilePath"})
+			if !ok {
+				continue
+			}
+			lvl := tileLevelAt(f, objOf(info, call.Args[0]), s)
+			if lvl == "-1" || lvl == "-2" {
+				st = append(st, staged{s, lvl, compositeField(info, cl, "data", 1), inLoop(cl)})
+			}
+		}
+		nFull, nPart := 0, 0
+		for _, x := range st {
+			x := x
+			name := map[string]string{"-1": "data", "-2": "names"}[x.level]
+			if x.in {
+				nFull++
+				inst := fmt.Sprintf("%s full %s tile", f.Name, name)
+				bad := false
+				if len(full) == 0 {
+					c.Bad(inst, x.site.Pos(), "tiles are staged inside the leaf loop without testing n % TileWidth == 0")
+					continue
+				}
+				if pt, _ := g.ReachableFromEntry(Cut{Edges: full}, atSite(x.site)); pt != nil {
+					c.Bad(inst, x.site.Pos(), "a "+name+" tile can be staged as full when the tree size is not a multiple of the tile width")
+					bad = true
+				}
+				// the test happens after the increment
+				for e := range full {
+					cond := Cond(e.From)
+					if pt, _ := g.Reach(Point{rangeHead(g, loop).Succs[0], 0}, Cut{Stop: func(p Point, _ ast.Node) bool { return p == inc[0].P }}, func(_ Point, n ast.Node) bool { return n != nil && n == ast.Node(cond) }); pt != nil {
+						c.Bad(inst, x.site.Pos(), "the full-tile test can be evaluated before the index was advanced for this leaf")
+						bad = true
+					}
+				}
+				// the bytes staged are compress(accumulator); the accumulator is reset before the next leaf
+				acc := accumulatorOf(f, x.data)
+				if acc == nil {
+					c.Bad(inst, x.site.Pos(), "the bytes staged are not compress(<accumulated tile bytes>)")
+					continue
+				}
+				if x.level == "-1" && acc != accObj {
+					c.Bad(inst, x.site.Pos(), "the data tile staged is not the accumulator the entries were appended to")
+					bad = true
+				}
+				var resets []Site
+				for _, d := range f.Defs(acc) {
+					if d.Kind == DefAssign && d.Rhs != nil && isNilIdent(info, d.Rhs) && inLoop(d.Node) {
+						resets = append(resets, f.Find(func(n ast.Node) bool { return n == d.Node })...)
+					}
+				}
+				head := rangeHead(g, loop)
+				if len(resets) == 0 {
+					c.Bad(inst, x.site.Pos(), "the accumulated bytes are not reset after staging a full tile: the next tile would repeat this tile's entries")
+					bad = true
+				} else if g.EntersBlock(x.site.After(), Cut{Stop: func(p Point, _ ast.Node) bool {
+					for _, r := range resets {
+						if r.P == p {
+							return true
+						}
+					}
+					return false
+				}}, head) {
+					c.Bad(inst, x.site.Pos(), "the next leaf can be processed without resetting the accumulated bytes of the tile just staged")
+					bad = true
+				}
+				if !bad {
+					c.add(Result{Instance: inst, Verdict: Discharged, Evals: 4, Sites: []string{x.site.Pos()}, Detail: "staged only when n % 256 == 0 (after n++), bytes = compress(accumulator), accumulator reset before the next leaf", Witnesses: f.WitEdges(necessaryEdges(g, g.Entry(), full, []Site{x.site}, Cut{}))})
+				}
+			} else {
+				nPart++
+				inst := fmt.Sprintf("%s partial %s tile", f.Name, name)
+				p1, _ := g.ReachableFromEntry(Cut{Edges: notFull}, atSite(x.site))
+				p2, _ := g.ReachableFromEntry(Cut{Edges: grew}, atSite(x.site))
+				switch {
+				case len(notFull) == 0 || p1 != nil:
+					c.Bad(inst, x.site.Pos(), "a trailing partial "+name+" tile can be staged although the tree size is tile-aligned (it would duplicate or shadow the full tile)")
+				case len(grew) == 0 || p2 != nil:
+					c.Bad(inst, x.site.Pos(), "a trailing partial "+name+" tile can be staged in a round that added no leaf")
+				case accumulatorOf(f, x.data) == nil:
+					c.Bad(inst, x.site.Pos(), "the bytes staged are not compress(<accumulated tile bytes>)")
+				default:
+					c.add(Result{Instance: inst, Verdict: Discharged, Evals: 3, Sites: []string{x.site.Pos()}, Detail: "staged only when n != old size and n % 256 != 0, bytes = compress(accumulator)"})
+				}
+			}
+		}
+		if nFull < 2 || nPart < 2 {
+			c.Unk(f.Name+" tile staging", fmt.Sprintf("expected full and partial data+names staging sites, found %d/%d", nFull, nPart))
+		}
+		// the tile coordinate: TileForIndex(TileHeight, StoredHashIndex(0, n-1))
+		okCoord := 0
+		for _, s := range f.Calls(Callee{pkgTlog, "", "TileForIndex"}) {
+			if len(s.Call.Args) != 2 {
+				continue
+			}
+			sh, ok := ast.Unparen(s.Call.Args[1]).(*ast.CallExpr)
+			if !ok || !matchCallee(info, sh, Callee{pkgTlog, "", "StoredHashIndex"}) || len(sh.Args) != 2 {
+				continue
+			}
+			lv, isC := constInt(info, sh.Args[0])
+			be, isB := ast.Unparen(sh.Args[1]).(*ast.BinaryExpr)
+			if isC && lv == 0 && isB && be.Op == token.SUB && objOf(info, be.X) == nObj {
+				if one, isOne := constInt(info, be.Y); isOne && one == 1 {
+					if h, isH := constInt(info, s.Call.Args[0]); isH && h == 8 {
+						okCoord++
+						continue
+					}
+				}
+			}
+			c.Bad(f.Name+" tile coordinate", s.Pos(), "a data/names tile is not addressed as the tile containing leaf n-1 (TileForIndex(TileHeight, StoredHashIndex(0, n-1)))")
+		}
+		if okCoord >= 2 {
+			c.OK(f.Name+" tile coordinate", fmt.Sprintf("%d staging sites address the tile of leaf n-1", okCoord), nil)
+		}
+		// initial accumulator from the partial edge tile
+		initOK := false
+		for _, d := range f.Defs(accObj) {
+			if d.Kind != DefAssign {
+				continue
+			}
+			call, ok := ast.Unparen(d.Rhs).(*ast.CallExpr)
+			if !ok || !matchCallee(info, call, Callee{"bytes", "", "Clone"}) {
+				continue
+			}
+			r, p, okp := fieldPath(info, call.Args[0])
+			if !okp || len(p) != 1 || p[0] != "B" {
+				continue
+			}
+			// r := edgeTiles[-1] guarded by ok && r.W < TileWidth
+			for _, rd := range f.Defs(r) {
+				if ix, isIx := ast.Unparen(rd.Rhs).(*ast.IndexExpr); isIx && rd.Kind == DefAssign {
+					if v, isC := constInt(info, ix.Index); isC && v == -1 {
+						ds := f.Find(func(n ast.Node) bool { return n == d.Node })
+						isW := func(e ast.Expr) bool {
+							rr, pp, okk := fieldPath(info, e)
+							return okk && rr == r && len(pp) == 1 && pp[0] == "W"
+						}
+						isTW := func(e ast.Expr) bool { x, isK := constInt(info, e); return isK && x == 256 }
+						part := g.EdgesImplying(func(at Atom) bool { rel, okc := cmpRel(at, isW, isTW); return okc && rel == relLT })
+						if len(ds) == 1 && len(part) > 0 {
+							if pt, _ := g.ReachableFromEntry(Cut{Edges: part}, atSite(ds[0])); pt == nil {
+								initOK = true
+							}
+						}
+					}
+				}
+			}
+		}
+		if initOK {
+			c.OK(f.Name+" accumulator start", "dataTile starts as a copy of the in-memory partial data tile (only if it is partial)", nil)
+		} else {
+			c.Bad(f.Name+" accumulator start", f.Pos(f.Decl), "the data-tile accumulator does not start from the current partial right-edge data tile: the staged tile would drop the entries already in it")
+		}
+	}
+}
+
+// accumulatorOf returns the variable x when e is compress(x)'s first result.
+func accumulatorOf(f *Func, e ast.Expr) types.Object {
+	if e == nil {
+		return nil
+	}
+	call, ok := f.IsCallResult(e, 0, specCompress)
+	if !ok || len(call.Args) != 1 {
+		return nil
+	}
+	return objOf(f.Info(), call.Args[0])
 }
